@@ -31,6 +31,9 @@ type RuleCase struct {
 	Rules      []RuleSpec `json:"rules"`
 	SecondFst  bool       `json:"load_source1_first"`
 	HasDefault bool       `json:"default_rule"`
+	// ViaUpdate: every source is first loaded with a version in which its first rule has another definition (same id and
+	// path expression) and then updated to the version under test
+	ViaUpdate bool `json:"reached_via_update,omitempty"`
 	Method     string     `json:"method"`
 	Path       string     `json:"request_path"`
 }
@@ -77,6 +80,7 @@ func execRuleCase(rc *RuleCase) (got string, want string, matching int, err erro
 	repo := rules.VerifNewRepository(rf)
 
 	sets := [2][]rule.Rule{}
+	before := [2][]rule.Rule{}
 	exprs := make([]Expr, len(rc.Rules))
 	flags := make([]bool, len(rc.Rules))
 	truth := make([]bool, len(rc.Rules))
@@ -106,6 +110,20 @@ func execRuleCase(rc *RuleCase) (got string, want string, matching int, err erro
 				return "", "", 0, cerr
 			}
 
+			if rc.ViaUpdate && len(sets[src]) == 0 {
+				earlier := cfg
+				earlier.Matcher.Methods = []string{"DELETE"}
+
+				eru, cerr := rf.CreateRule(rulecfg.CurrentRuleSetVersion, fmt.Sprintf("src%d", src), earlier)
+				if cerr != nil {
+					return "", "", 0, cerr
+				}
+
+				before[src] = append(before[src], eru)
+			} else {
+				before[src] = append(before[src], ru)
+			}
+
 			sets[src] = append(sets[src], ru)
 			order = append(order, i)
 		}
@@ -121,8 +139,28 @@ func execRuleCase(rc *RuleCase) (got string, want string, matching int, err erro
 			continue
 		}
 
-		if aerr := repo.AddRuleSet(fmt.Sprintf("src%d", src), sets[src]); aerr != nil {
+		if !rc.ViaUpdate {
+			if aerr := repo.AddRuleSet(fmt.Sprintf("src%d", src), sets[src]); aerr != nil {
+				return "", "", 0, fmt.Errorf("rejected: %w", aerr)
+			}
+
+			continue
+		}
+
+		if aerr := repo.AddRuleSet(fmt.Sprintf("src%d", src), before[src]); aerr != nil {
 			return "", "", 0, fmt.Errorf("rejected: %w", aerr)
+		}
+	}
+
+	if rc.ViaUpdate {
+		for _, src := range loadOrder {
+			if len(sets[src]) == 0 {
+				continue
+			}
+
+			if uerr := repo.UpdateRuleSet(fmt.Sprintf("src%d", src), sets[src]); uerr != nil {
+				return "", "", 0, fmt.Errorf("update refused: %w", uerr)
+			}
 		}
 	}
 
@@ -203,8 +241,9 @@ func runRuleLevel(c *engine.Ctx, work *int) {
 				}
 
 				for _, p := range rlProbes {
-					for _, m := range []string{"GET", "POST"} {
-						rc := &RuleCase{Kind: "rule-level", Rules: rs, SecondFst: second, HasDefault: def, Method: m, Path: p}
+					for _, mu := range []string{"GET", "POST", "GET+", "POST+"} {
+						m, upd := strings.TrimSuffix(mu, "+"), strings.HasSuffix(mu, "+")
+						rc := &RuleCase{Kind: "rule-level", Rules: rs, SecondFst: second, HasDefault: def, Method: m, Path: p, ViaUpdate: upd}
 
 						got, want, nm, err := execRuleCase(rc)
 
@@ -225,13 +264,18 @@ func runRuleLevel(c *engine.Ctx, work *int) {
 						c.Outcome("rule-level: " + classify(want))
 
 						if nm >= 2 {
-							c.Nontrivial(fmt.Sprintf("rl|%v|%v|%v|%s|%s", rs, second, def, m, p))
+							c.Nontrivial(fmt.Sprintf("rl|%v|%v|%v|%s|%s", rs, second, def, mu, p))
 						}
 
 						if got != want {
-							c.Violation("rule-level/"+classify(got)+"-instead-of-"+classify(want),
-								fmt.Sprintf("rules=%+v load_src1_first=%v default=%v %s %s: repository returned %s, reference %s",
-									rs, second, def, m, p, got, want), rc)
+							sig := "rule-level/" + classify(got) + "-instead-of-" + classify(want)
+							if upd {
+								sig += "/reached-via-update"
+							}
+
+							c.Violation(sig,
+								fmt.Sprintf("rules=%+v load_src1_first=%v default=%v via_update=%v %s %s: repository returned %s, reference %s",
+									rs, second, def, upd, m, p, got, want), rc)
 						} else if nm >= 2 && c.WantSample() {
 							c.Sample(map[string]any{"rule_level_case": rc, "chosen": got})
 						}
@@ -302,6 +346,11 @@ func replayRuleLevel(c *engine.Ctx, raw json.RawMessage) {
 	fmt.Printf("replay: %+v -> repository %s, reference %s, err=%v\n", rc, got, want, err)
 
 	if err != nil || got != want {
-		c.Violation("rule-level/"+classify(got)+"-instead-of-"+classify(want), "repository and reference disagree", &rc)
+		sig := "rule-level/" + classify(got) + "-instead-of-" + classify(want)
+		if rc.ViaUpdate {
+			sig += "/reached-via-update"
+		}
+
+		c.Violation(sig, "repository and reference disagree", &rc)
 	}
 }
